@@ -73,7 +73,14 @@ def impl(case):
     ws = None if weights is None else tuple(C.mkarr(w, shape2d, f"{key}w{i}") for i, w in enumerate(weights))
     for a in cs + ds + (ws or ()):
         a.setflags(write=False)
-    br = vd.BlockReduce(REDS[red], spacing=spacing, region=region, adjust=adjust, center_coordinates=centre, shape=shape, drop_coords=drop)
+    if len(case["op"]) % 3 == 0:
+        # history: built with other settings, then reconfigured the scikit-learn way before use (set_params / attribute assignment)
+        br = vd.BlockReduce(np.max if ws is None else np.average, spacing=None if spacing is None else 7.25, shape=None if shape is None else (1, 1),
+                            region=region, adjust=adjust, center_coordinates=not centre, drop_coords=not drop)
+        br.set_params(reduction=REDS[red], spacing=spacing, shape=shape, center_coordinates=centre)
+        br.drop_coords = drop
+    else:
+        br = vd.BlockReduce(REDS[red], spacing=spacing, region=region, adjust=adjust, center_coordinates=centre, shape=shape, drop_coords=drop)
     d_arg = ds[0] if len(ds) == 1 else ds
     w_arg = None if ws is None else (ws[0] if len(ws) == 1 else ws)
     # history: the same instance is first used on a different cloud (shifted, stretched); the result on the case's cloud
